@@ -12,6 +12,10 @@ RULE = ("every circuit with <=2 inputs, optional constant and <=2 gates over all
 BOUND = "circuits <= 12 nodes, <= 4 inputs (81 patterns x <=16 fillings); 4/16 hash seeds"
 
 
+# names of which one is a prefix of another, with a next character sorting before / after "_"
+PREFIX_NAMES = ["n1", "n10", "n1_0", "d", "dA", "d0", "d_0", "a", "a0", "aZ", "a_", "x9", "x", "x90", "q", "q_q", "qq"]
+
+
 def cases(tier, seed):
     rng = gen.rng_for(seed, "c10")
     for consts in ((), ("0",), ("1",)):
@@ -33,9 +37,17 @@ def cases(tier, seed):
                     srcs.append("i3")
                 nodes.append(["g", t, True])
                 yield {"c": {"name": "one", "nodes": nodes, "edges": [[s, "g"] for s in srcs], "bbs": {}}}
+    # two gates whose fan-in NAME sets join to the same text ({a_b, c} and {a, b_c}) or are prefixes of each other
+    for t1, t2 in itertools.product(["and", "or", "nand", "nor"], repeat=2):
+        for (f1, f2) in ((["a_b", "c"], ["a", "b_c"]), (["a_sel", "b"], ["a", "sel_b"]), (["n1", "n10"], ["n1", "n1_0"])):
+            ins = sorted(set(f1) | set(f2))
+            nodes = [[i_, "input", False] for i_ in ins] + [["g1", t1, True], ["g2", t2, True]]
+            edges = [[f, "g1"] for f in f1] + [[f, "g2"] for f in f2]
+            yield {"c": {"name": "join", "nodes": nodes, "edges": edges, "bbs": {}}}
     for i in range(150 if tier == "quick" else 3000):
         cd = gen.random_circuit(rng, n_in=rng.randint(1, 4), n_gates=rng.randint(2, 7), max_fanin=rng.choice([2, 3, 4]),
-                                p_const=0.4, p_out=0.3, names=(gen.NASTY_NAMES if rng.random() < 0.25 else None))
+                                p_const=0.4, p_out=0.3, names=(gen.NASTY_NAMES if rng.random() < 0.25 else
+                                                                (PREFIX_NAMES if rng.random() < 0.2 else None)))
         if rng.random() < 0.25:
             cd = gen.adversarial_rename(cd, rng)  # names the transform itself would derive from other nodes
         if rng.random() < 0.3:
